@@ -116,6 +116,13 @@ claim("C11",
       "return-only-when-clean shape and anchor handling; exact rational forms of resampleStepwise's partial-bin fractions. Numerical conservation is not decided.",
       COMMON_NOTE, "role typing (abstract interpretation) + path conditions + loop-shape rules + exact rational normal forms", "DESIGN.md section 3 C11")
 
+claim("C12",
+      "Static analysis (partial, exact): axiallyExpandAssembly typed with a role generator for the growth fraction (height x growth^+1, density factor growth^-1 on the same component); "
+      "path conditions of every zbottom/ztop/height store (bottom on the lower block's top, top only from the target component and never for the dummy block); the block-height check "
+      "placed after the update; mesh from tops into the grid bounds; component stacking cases; cold-diameter consistency of the linkage test; reference temperature refreshed on every "
+      "path of updateComponentTemp. Mass numbers and numerical restoration are not decided.",
+      COMMON_NOTE, "role typing (abstract interpretation) + path conditions + statement ordering + all-paths counting", "DESIGN.md section 3 C12")
+
 NA_REASON = {}
 
 
